@@ -306,13 +306,12 @@ def Expr.marginalize (e : Expr) (ranges : List Var) : Expr := sumSafe0 e (ranges
 def Expr.normalizeMarginalize (e : Expr) (ranges : List Var) : Except Err Expr :=
   e.div (e.marginalize ranges)
 
-/-- `e.conditional(ranges)`: `Probability.conditional` skips `Intervention` objects, `Expression.conditional`
-collects every variable `_iter_variables` yields (subscripts and `Sum` ranges included: finding F11) -/
+/-- `e.conditional(ranges)`: both overloads (`Probability.conditional`, and — after `fix:` a54a0f5 —
+`Expression.conditional`) skip `Intervention` objects, i.e. the subscripts `_iter_variables` yields; the ranges of inner
+`Sum`s are still collected (what remains of finding F11) -/
 def Expr.conditional (e : Expr) (ranges : List Var) : Except Err Expr :=
   let rs := upgradeOrdering (ranges.map Var.base)
-  let vars : List Var := match e with
-    | .prob _ _ _ => e.iterVars.filter (fun (v : Var) => !v.isIv)
-    | _ => e.iterVars
+  let vars : List Var := e.iterVars.filter (fun (v : Var) => !v.isIv)
   e.normalizeMarginalize (diff' (dedup' (vars.map Var.base)) rs)
 
 /-! ### Fraction.simplify -/
